@@ -52,11 +52,17 @@ bool Date::load(std::istream &in, Context&) {
     in >> year;
     if (in.fail()) return false;
 
-    date = std::chrono::year_month_day(
+    // a real date, or the all-zero value of a DATE that was never assigned
+    bool unset = day == 0 && month == 0 && year == 0;
+    if (!unset && (day > 31 || month > 12 || year < -32767 || year > 32767)) return false;
+
+    std::chrono::year_month_day loaded = std::chrono::year_month_day(
         std::chrono::year(year),
         std::chrono::month(month),
         std::chrono::day(day)
     );
+    if (!unset && !loaded.ok()) return false;
 
+    date = loaded;
     return true;
 }
